@@ -121,6 +121,22 @@ def check_zone(hszinc, pytz, hname, tier, fails, limit=12):
             fails.append({'id': 'C17/A-tz/utcoffset-raises/' + hname, 'what': 'tz.utcoffset(%s) raised %r (contract: only pytz.InvalidTimeError)' % (naive, e), 'input': inp})
         if len(fails) > limit:
             break
+    # values that carry one of the zone's tzinfo instances with an offset the zone does not have at that instant (wall-clock arithmetic or
+    # replace() on a localized value without normalize()): well-defined instants; the name written must be a zone that has THEIR offset then
+    for naive, shift in ((datetime.datetime(2020, 1, 15, 12, 0), TD(days=180)), (datetime.datetime(2020, 7, 15, 12, 0), TD(days=170)),
+                         (datetime.datetime(2020, 3, 29, 1, 30), TD(hours=1)), (datetime.datetime(2020, 11, 1, 0, 30), TD(hours=1))):
+        try:
+            stale = tz.localize(naive) + shift
+        except Exception:
+            continue
+        cases += 1
+        _roundtrip(hszinc, stale, None, fails, 'C17/zone-stale-offset/' + hname, {'kind': 'zone', 'zone': hname, 'utc': naive.isoformat(), 'stale': True})
+        try:
+            rep = tz.localize(naive).replace(month=(naive.month + 5) % 12 + 1, day=10)
+        except Exception:
+            continue
+        cases += 1
+        _roundtrip(hszinc, rep, None, fails, 'C17/zone-stale-offset/' + hname, {'kind': 'zone', 'zone': hname, 'utc': naive.isoformat(), 'stale': True})
     return cases
 
 
